@@ -92,12 +92,14 @@ pub fn seq() -> u16 { unsafe { SEQ } }
 /// id happened, and all its occurrences lie strictly before every occurrence of `later` (if any)
 pub fn before(id: usize, later: usize) -> bool { cnt(later) == 0 || (cnt(id) > 0 && last(id) < first(later)) }
 
-/// Called between the programs packed into one harness: resets the scalar monitors (clock, counters,
-/// thread/task model scalars).  The per-event arrays are *not* reset (that would need a loop), so programs
-/// that inspect per-event data are either alone in their harness or use disjoint event ids.
+/// Called before each of the programs packed into one harness: resets every monitor (whole-array
+/// assignments, no loops) and the thread / task models.
 pub fn reset() {
     unsafe {
         SEQ = 0; CREATED = 0; DROPS = 0; TOKSUM = 0; DROPSUM = 0; WOKEN = false; WAKES = 0; ALLOCS = 0;
+        CNT = [0; NEV]; FIRST = [0; NEV]; LAST = [0; NEV]; ARG = [0; NEV]; ARGX = [0; NEV];
+        OPEN = [false; NGATE]; GATE_POLLS = [0; NGATE];
+        WAKERS = [None, None, None, None, None, None, None, None];
     }
     std::thread::reset();
     tokio::reset();
